@@ -21,6 +21,8 @@ package conversions
 //@   ensures @iff (err == nil) <==> convOK(height, amount, fromRate, fromAvg, toRate, toAvg)
 //@   ensures @exact err == nil ==> result == convSpec(height, amount, fromRate, fromAvg, toRate, toAvg)
 //@   ensures @zero_on_error err != nil ==> result == 0
+//@   ensures @err_fresh err != nil ==> fresherr(err)
+//@   ensures @nonneg result >= 0
 //@   ensures @value err == nil ==> result * toRate <= amount * fromRate
 //@   canary @swapped err == nil ==> result == (amount * dstRate(height, toRate, toAvg)) / srcRate(height, fromRate, fromAvg)
 //@   canary @false false
